@@ -189,6 +189,8 @@ class FakeSocket(object):
 
     def _fail(self, entry, ex):
         self.log.append(entry + (ex,))
+        if isinstance(ex, OSError) and ex.errno in (errno.ECONNRESET, errno.ETIMEDOUT, errno.ECONNREFUSED):
+            self.peer = None        # the connection is gone: the kernel answers getpeername() with ENOTCONN from now on
         raise ex
 
     def _blocked(self, token, op, tls):
